@@ -11,6 +11,7 @@ import SmoothProofs.C11Model
 import SmoothProofs.C13Knot
 import SmoothProofs.C13Cont
 import SmoothProofs.C13Table
+import SmoothProofs.C13Dumped
 import Mathlib.Data.List.GetD
 import Mathlib.Tactic.Group
 
@@ -431,6 +432,56 @@ theorem knot_continuity_of_value (n : Nat) (hK : n + 1 ∈ [1, 2, 3, 4, 5, 6])
     exact this
   · simp only [b, dif_pos (Nat.lt_succ_self n)]
     exact l0
+
+
+/-! ## the tables the implementation uses (doubles): continuity up to an explicit error -/
+
+/-- the cumulative B-spline table DUMPED from the running implementation (generated file), as the
+    basis matrix of the model -/
+noncomputable abbrev dumpedCum (K : Nat) : Mat ℝ (K + 1) (K + 1) :=
+  castTab (Gen.Poly.cumBasis .Bspline K) K
+
+/-- **Velocity continuity at the knots for the implementation's own (double) tables, `2 ≤ K ≤ 6`.**
+    The dumped tables satisfy the knot identities within `ε = 2⁻⁴⁸` (kernel-checked on every run);
+    hence window `i` at `u = 1` and window `i+1` at `u = 0` give velocities that differ by at most
+    `errB M L ε β V n (εV) 0 + L ε normB M β V n 0 + ε V` — linear in `ε` — where `M`, `L` bound
+    `x ↦ Ad(exp(b v)⁻¹)x` and its dependence on `b` in the sup norm (`AdBounds`), `V` bounds the
+    differences and `β` the basis derivatives `|B̃ⱼ'(0)|`. -/
+theorem knot_continuity_dumped_tables (n : Nat) (hn : 1 ≤ n) (hK : n + 1 ∈ [1, 2, 3, 4, 5, 6]) (G : LieModel ℝ)
+    {M L β V : ℝ} (hAd : AdBounds G M L) (ctrl : List (Vec ℝ G.rep)) (i : Nat)
+    (hβ : ∀ j : Fin n, |bd (dumpedCum (n + 1)) 0 1 j.castSucc| ≤ β)
+    (hV : ∀ j, ‖(CSpline.diffs G (BSpline.window G.identity (n + 1) ctrl i) j).get‖ ≤ V)
+    (hVl : ‖(CSpline.diffs G (BSpline.window G.identity (n + 1) ctrl (i + 1)) (Fin.last n)).get‖ ≤ V) :
+    let ε : ℝ := ((1 / 2 ^ 48 : Rat) : ℝ)
+    let A := CSpline.eval_gs G (BSpline.window G.identity (n + 1) ctrl i) (dumpedCum (n + 1)) 1
+    let B := CSpline.eval_gs G (BSpline.window G.identity (n + 1) ctrl (i + 1)) (dumpedCum (n + 1)) 0
+    ‖A.vel.get - B.vel.get‖ ≤ errB M L ε β V n (ε * V) 0 + L * ε * normB M β V n 0 + ε * V := by
+  intro ε A B
+  have hid := bspline_knot_identities.2.2.1 (n + 1) hK
+  have hε : (0 : ℝ) ≤ ε := by simp only [ε]; positivity
+  obtain ⟨_, s0, l0⟩ := jets_of_table_tol hid 0 (by omega)
+  obtain ⟨f1, s1, l1⟩ := jets_of_table_tol hid 1 (by omega)
+  have hAv : A.vel = (CSpline.eval_vs G (CSpline.diffs G (BSpline.window G.identity (n + 1) ctrl i)) (dumpedCum (n + 1)) 1).vel := by
+    simp only [A, CSpline.eval_gs, memoV_eq]
+  have hBv : B.vel = (CSpline.eval_vs G (CSpline.diffs G (BSpline.window G.identity (n + 1) ctrl (i + 1))) (dumpedCum (n + 1)) 0).vel := by
+    simp only [B, CSpline.eval_gs, memoV_eq]
+  rw [hAv, hBv]
+  have f1' : |bd (dumpedCum (n + 1)) 1 1 (0 : Fin (n + 1))| ≤ ε := by
+    have := f1
+    simp only [one_ne_zero, if_false, sub_zero] at this
+    exact this
+  exact knot_continuity_vel_tol G hAd hε _ _ _ (window_shift_diffs G ctrl i n) f1' (fun j => ⟨s0 j, s1 j⟩) ⟨l0, l1⟩ hβ hV hVl
+
+/-- non-vacuity of `AdBounds`: translations (`M = 1`, `L = 0`); the bound is then `(n+2)·2⁻⁴⁸·V` -/
+example : AdBounds (Tn.model (α := ℝ) 3) 1 0 := by
+  have hA : ∀ (b : ℝ) (v : Vec ℝ (Tn.model (α := ℝ) 3).dof) (x : Fin (Tn.model (α := ℝ) 3).dof → ℝ),
+      C11.mv (AdB (Tn.model (α := ℝ) 3) b v) x = x := by
+    intro b v x
+    show C11.mv (ident 3 : Mat ℝ 3 3) x = x
+    exact C11.mv_ident x
+  refine ⟨zero_le_one, le_refl _, ?_, ?_, fun v x => hA 0 v x⟩
+  · intro b v x; rw [hA, one_mul]
+  · intro b b' v x; rw [hA, hA]; simp
 
 /-- non-vacuity of `AdExpZero`: translations -/
 example : AdExpZero (Tn.model (α := ℝ) 3) := by
